@@ -70,7 +70,13 @@ def frame_check(ip, case, entry, final, tag):
     """every heap cell reachable from the parameters that is not named in `modifies` is unchanged"""
     allowed_fields, allowed_cells = set(), set()
     from .calls import places_of
+    if "$fs" in final.notes and "fs" not in case.modifies:
+        a, b = entry.notes.get("$fs"), final.notes.get("$fs")
+        if a is not None and b is not None and a.s != b.s:
+            ip.emit("frame", "frame: the file system is untouched%s" % tag, final, EQ(a, b))
     for m in case.modifies:
+        if m == "fs":
+            continue
         try:
             kind, base, field = places_of(ip, entry, entry.env, m)
         except Exception:
@@ -175,13 +181,16 @@ def build_unit(contract, case, contracts, world):
                 cls_inv = cs.invariant
                 for inv in cs.invariant:
                     st.assume(eval_spec(ip, st, {"self": selfv}, inv))
-        for r in case.requires:
-            st.assume(eval_spec(ip, st, st.env, r))
+        if case.ghost.get("fs"):
+            from .lib import fs_init
+            fs_init(ip, st)
         if case.ghost.get("elstate"):
             from .calls import elem_state
             reg.need("Obj")
             reg.need("St")
             st.env["$elst"] = Opaque(reg.new("elst", "(Array Obj St)"))
+        for r in case.requires:
+            st.assume(eval_spec(ip, st, st.env, r))
         entry = st.copy()
         ip.entry = entry
         ip.oldst = entry
@@ -240,6 +249,8 @@ def check_normal_exit(ip, case, entry, st, res, selfv, cls_inv, contracts):
         env["result"] = NONE
     if "$elst" in st.env:
         env["$elst"] = st.env["$elst"]
+    if "$fs" in st.env:
+        env["$fs"] = st.env["$fs"]
     if case.result_alias is not None:
         ip.emit("post", "result is the parameter %s itself" % case.result_alias, st,
                 ip.py_is(st, res, entry.env[case.result_alias]) if isinstance(res, Ref) else FALSE)
@@ -265,6 +276,15 @@ def entry_view(entry, st):
 
 
 def check_exceptional_exit(ip, case, entry, st, exc):
+    if exc.cls == "GeneratorExit" and case.generator:
+        env = dict(entry.env)
+        env["out"] = st.env["out"]
+        for k2 in ("$fs", "$elst"):
+            if k2 in st.env:
+                env[k2] = st.env[k2]
+        for k, cl in enumerate(case.on_abandon):
+            ip.emit("abandon", "on-abandon#%d" % k, st, eval_spec(ip, st, env, cl, old=entry), {"clause": cl})
+        return
     allowed = None
     for e in case.raises:
         if ip.is_subclass(exc.cls, e):
@@ -280,6 +300,9 @@ def check_exceptional_exit(ip, case, entry, st, exc):
     env = dict(entry.env)
     if case.generator:
         env["out"] = st.env["out"]
+    for k2 in ("$fs", "$elst"):
+        if k2 in st.env:
+            env[k2] = st.env[k2]
     for k, cl in enumerate(case.exc_ensures.get(allowed, [])):
         ip.emit("post", "exceptional ensures#%d (%s)" % (k, allowed), st, eval_spec(ip, st, env, cl, old=entry))
     if case.raises_frame == "pure":
